@@ -5,9 +5,9 @@ use crate::refregion as rr;
 use crate::script::*;
 use simcore::Rng;
 
-pub const UP_BOUNDARIES: [u32; 8] = [0, 1, 0xFFFE, 0xFFFF, 0x1_0000, 0xFFFF_FFFD, 0xFFFF_FFFE, 0xFFFF_FFFF];
-pub const DOWN_BOUNDARIES: [Option<u32>; 9] =
-    [None, Some(0), Some(0xFFF0), Some(0xFFFF), Some(0x1_0000), Some(0x3_FFFF), Some(0xFFFF_BFFF), Some(0xFFFF_FFFE), Some(0xFFFF_FFFF)];
+pub const UP_BOUNDARIES: [u32; 10] = [0, 1, 0xFFFE, 0xFFFF, 0x1_0000, 0x00FF_FFFF, 0x0100_0000, 0xFFFF_FFFD, 0xFFFF_FFFE, 0xFFFF_FFFF];
+pub const DOWN_BOUNDARIES: [Option<u32>; 11] =
+    [None, Some(0), Some(0xFFF0), Some(0xFFFF), Some(0x1_0000), Some(0x3_FFFF), Some(0x00FF_FFFE), Some(0x0100_0000), Some(0xFFFF_BFFF), Some(0xFFFF_FFFE), Some(0xFFFF_FFFF)];
 
 pub struct CfgProfile {
     pub frontends: &'static [(Frontend, u32)],
@@ -325,7 +325,16 @@ pub fn gen_mac_valid(r: &mut Rng, region: RegionId) -> MacSpec {
             let join = rr::default_channels(region).len() as u8;
             MacSpec::NewChannel { idx: r.range(join as i64, 15) as u8, freq: if r.chance(1, 6) { 0 } else { freq_in_band(r, region) }, drrange: *r.pick(&[0x50u8, 0x50, 0x30, 0x52, 0x55]) }
         }
-        _ => MacSpec::DlChannel { idx: r.below(8) as u8, freq: freq_in_band(r, region) },
+        _ => {
+            let idx = r.below(8) as u8;
+            let defaults = rr::default_channels(region);
+            // sometimes exactly the channel's own uplink frequency (the way a network undoes an earlier mapping)
+            let freq = match defaults.get(idx as usize) {
+                Some(f) if r.chance(1, 3) => *f / 100,
+                _ => freq_in_band(r, region),
+            };
+            MacSpec::DlChannel { idx, freq }
+        }
     }
 }
 
